@@ -1102,6 +1102,11 @@ def check_C02(ctx):
         summ = harness(ctx, ["hitobj", "codec"], cases_file=f, name="hitobj-codec-rand", timeout=3600)
         report_mismatches(ctx, summ, "the encoder's hit-object line differs from HitObjectLine!EncOf (randomised alphabet %d)" % salt)
         os.remove(f)
+    # (2c) files whose sections come in any order and repeat (SectionFlow.tla): decode -> encode -> decode
+    f = flow_cases(ctx, 5 if thorough else 4)
+    summ = harness(ctx, ["flow", "replay", "--prop", "C02"], cases_file=f, name="flow-roundtrip", timeout=3600)
+    report_mismatches(ctx, summ, "a file with interleaved sections does not survive decode -> encode -> decode")
+    os.remove(f)
     # (3) timing points: encoder transcription composed with the decoder
     plan = [("AlphaVel", "GensModes", 3), ("AlphaAll", "GensTwo", 2)] if thorough else [("AlphaVel", "GensModes", 2), ("AlphaEff", "GensTwo", 2)]
     for (a, g, n) in plan:
